@@ -2,6 +2,7 @@
 
 void GMGPolar::prolongation(const int current_level, Vector<double>& result, const Vector<double>& x) const
 {
+    VERIF_TRACE("prolong", current_level, &result, &x);
     assert(current_level < number_of_levels_ && 1 <= current_level);
     if (!interpolation_)
         throw std::runtime_error("Interpolation not initialized.");
@@ -11,6 +12,7 @@ void GMGPolar::prolongation(const int current_level, Vector<double>& result, con
 
 void GMGPolar::restriction(const int current_level, Vector<double>& result, const Vector<double>& x) const
 {
+    VERIF_TRACE("restrict", current_level, &result, &x);
     assert(current_level < number_of_levels_ - 1 && 0 <= current_level);
     if (!interpolation_)
         throw std::runtime_error("Interpolation not initialized.");
@@ -20,6 +22,7 @@ void GMGPolar::restriction(const int current_level, Vector<double>& result, cons
 
 void GMGPolar::injection(const int current_level, Vector<double>& result, const Vector<double>& x) const
 {
+    VERIF_TRACE("inject", current_level, &result, &x);
     assert(current_level < number_of_levels_ - 1 && 0 <= current_level);
     if (!interpolation_)
         throw std::runtime_error("Interpolation not initialized.");
@@ -29,6 +32,7 @@ void GMGPolar::injection(const int current_level, Vector<double>& result, const 
 
 void GMGPolar::extrapolatedProlongation(const int current_level, Vector<double>& result, const Vector<double>& x) const
 {
+    VERIF_TRACE("exProlong", current_level, &result, &x);
     assert(current_level < number_of_levels_ && 1 <= current_level);
     if (!interpolation_)
         throw std::runtime_error("Interpolation not initialized.");
@@ -38,6 +42,7 @@ void GMGPolar::extrapolatedProlongation(const int current_level, Vector<double>&
 
 void GMGPolar::extrapolatedRestriction(const int current_level, Vector<double>& result, const Vector<double>& x) const
 {
+    VERIF_TRACE("exRestrict", current_level, &result, &x);
     assert(current_level < number_of_levels_ - 1 && 0 <= current_level);
     if (!interpolation_)
         throw std::runtime_error("Interpolation not initialized.");
@@ -47,6 +52,7 @@ void GMGPolar::extrapolatedRestriction(const int current_level, Vector<double>& 
 
 void GMGPolar::FMGInterpolation(const int current_level, Vector<double>& result, const Vector<double>& x) const
 {
+    VERIF_TRACE("fmgInterp", current_level, &result, &x);
     assert(current_level < number_of_levels_ && 1 <= current_level);
     if (!interpolation_)
         throw std::runtime_error("Interpolation not initialized.");
